@@ -293,6 +293,18 @@ impl<'tcx> Interp<'tcx> {
                                 }
                             }
                         }
+                        // a copy of a bool keeps the comparison it was defined by
+                        if p.projection.is_empty() && p.local != dest.local {
+                            if let Val::Int(i) = &v {
+                                if i.ty.bits == 1 {
+                                    let fi = self.fi() as usize;
+                                    let (l, ver) = (p.local.as_u32(), st.frames[fi].vers[p.local.as_usize()]);
+                                    if let Some(d) = st.frames[fi].bdefs.iter().find(|e| e.0 == l && e.1 == ver).map(|e| e.2.clone()) {
+                                        self.pending_bdef = Some((dest.local.as_u32(), d));
+                                    }
+                                }
+                            }
+                        }
                     }
                 }
                 v
@@ -367,7 +379,12 @@ impl<'tcx> Interp<'tcx> {
                             };
                             if let Some(c) = c {
                                 if let (Some(sa), Some(sb)) = (self.op_src(st, l, &a), self.op_src(st, r, &b)) {
-                                    self.pending_bdef = Some((dest.local.as_u32(), BoolDef::Cmp { op: c, a: sa, b: sb }));
+                                    let fa = self.fact_of_src(st, &sa);
+                                    let fb = self.fact_of_src(st, &sb);
+                                    if self.trace_on && self.trace_pat == "FACTS" && !st.frames[self.fi() as usize].callres.is_empty() {
+                                        eprintln!("TRACE cmp def {:?} sa={:?} callres={:?} fa={:?}", c, sa, st.frames[self.fi() as usize].callres, fa);
+                                    }
+                                    self.pending_bdef = Some((dest.local.as_u32(), BoolDef::Cmp { op: c, a: sa, b: sb, fa, fb, ia: (x.lo, x.hi), ib: (y.lo, y.hi) }));
                                 }
                             }
                         }
@@ -790,9 +807,16 @@ impl<'tcx> Interp<'tcx> {
                 }
                 true
             }
-            Some(BoolDef::Cmp { op, a, b }) => {
+            Some(BoolDef::Cmp { op, a, b, fa, fb, ia, ib }) => {
                 let op = if val { op } else { op.negate() };
-                self.assume_cmp(st, op, &a, &b)
+                let ok = self.assume_cmp(st, op, &a, &b);
+                if self.trace_on && self.trace_pat == "FACTS" {
+                    eprintln!("TRACE assume cmp {:?} ok={} fa={:?} fb={:?}", op, ok, fa, fb);
+                }
+                if ok && (fa.is_some() || fb.is_some()) {
+                    self.assume_fact_cmp(st, op, &fa, &fb, ia, ib);
+                }
+                ok
             }
             None => true,
         }
@@ -823,9 +847,53 @@ impl<'tcx> Interp<'tcx> {
         let key = st.frames[fi].callres.iter().find(|e| e.0 == l && e.1 == ver).map(|e| e.2.clone());
         if let Some(k) = key {
             if let Some(old) = st.facts.get(&k).cloned() {
-                let n = (old.0.max(r.lo), old.1.min(r.hi));
+                let n = (old.0.max(r.lo), old.1.min(r.hi), old.2);
                 if n != old {
                     Rc::make_mut(&mut st.facts).insert(k, n);
+                }
+            }
+        }
+    }
+
+    /// (key, generation) of the path fact a comparison operand is the tracked call result of
+    fn fact_of_src(&self, st: &State, s: &Src) -> Option<(Rc<str>, u64)> {
+        let Src::Local(l, ver) = s else { return None };
+        let fi = self.fi() as usize;
+        let key = st.frames[fi].callres.iter().find(|e| e.0 == *l && e.1 == *ver).map(|e| e.2.clone())?;
+        let g = st.facts.get(&key)?.2;
+        Some((key, g))
+    }
+
+    /// the compared temporaries may be dead when the branch is taken; the path fact (same generation)
+    /// is refined from the comparison itself
+    fn assume_fact_cmp(&mut self, st: &mut State, op: Cmp, fa: &Option<(Rc<str>, u64)>, fb: &Option<(Rc<str>, u64)>, ia: (i128, i128), ib: (i128, i128)) {
+        let val_of = |st: &State, f: &Option<(Rc<str>, u64)>, snap: (i128, i128)| -> IntV {
+            if let Some((k, g)) = f {
+                if let Some(cur) = st.facts.get(k) {
+                    if cur.2 == *g && *g != 0 {
+                        return IntV::new(cur.0.max(snap.0), cur.1.min(snap.1), ITy::I128);
+                    }
+                }
+            }
+            IntV::new(snap.0, snap.1, ITy::I128)
+        };
+        let (av, bv) = (val_of(st, fa, ia), val_of(st, fb, ib));
+        if av.lo > av.hi || bv.lo > bv.hi {
+            return;
+        }
+        let Some((ra, rb)) = ops::refine(op, &av, &bv) else { return };
+        if self.trace_on && self.trace_pat == "FACTS" {
+            eprintln!("TRACE fact refine {:?} av={} bv={} -> {} {} facts={:?}", op, av.short(), bv.short(), ra.short(), rb.short(), st.facts);
+        }
+        for (f, r) in [(fa, ra), (fb, rb)] {
+            if let Some((k, g)) = f {
+                if let Some(old) = st.facts.get(k).cloned() {
+                    if old.2 == *g && *g != 0 {
+                        let n = (old.0.max(r.lo), old.1.min(r.hi), old.2);
+                        if n != old && n.0 <= n.1 {
+                            Rc::make_mut(&mut st.facts).insert(k.clone(), n);
+                        }
+                    }
                 }
             }
         }
